@@ -1,5 +1,5 @@
 import Xp.Base.JsonIO
-import Xp.Model.C16
+import Xp.Model.C16World
 namespace Xp.C16
 open Lean (Json)
 open Xp.IOx
@@ -87,11 +87,36 @@ def actOf (j : Json) : Act :=
   if str j "act" == "put" then .put ⟨str j "key", 0, (arr j "owners").map refOf, nat j "body"⟩
   else .del (str j "key")
 
-/-- the scenario's interference: the listed writes, in order, right before the real write of
-object `i`; `i = -1`: between the validate phase and the establish phase -/
+/-- where a third-party write of the scenario is placed: `""` (or `"pre"`) = right before the real
+write of object `i` (`i = -1`: between the phases); `"vget"` / `"vdry"` = validate phase, before the
+Get / between the Get and the dry run of object `i`; `"rget"` / `"rupd"` = ReleaseObjects, before
+the Get / between the Get and the Update of reference `i` -/
+def atOf (j : Json) : String :=
+  let a := str j "at"
+  if a == "pre" then "" else a
+
+def actsAt (tp : List Json) (at_ : String) (i : Nat) : List Act :=
+  (tp.filter fun j => atOf j == at_ && int j "i" == (i : Int)).map actOf
+
+/-- the scenario's interference with the establish phase -/
 def interfOf (tp : List Json) : Interf :=
-  { mid := (tp.filter fun j => int j "i" < 0).map actOf
-    pre := fun i => (tp.filter fun j => int j "i" == (i : Int)).map actOf }
+  { mid := (tp.filter fun j => atOf j == "" && int j "i" < 0).map actOf
+    pre := actsAt tp "" }
+
+/-- what the cached Get of object `i` served: `{"i","miss","owners","body"}`; an older version
+gets resourceVersion 0 (older than every stored one) -/
+def staleOf (st : List Json) (objs : List Desired) (i : Nat) : Option (Option Obj) :=
+  match st.find? (fun j => nat j "i" == i) with
+  | none => none
+  | some j =>
+    if bool j "miss" then some none
+    else some (some ⟨(objs[i]?.map (·.key)).getD "", 0, (arr j "owners").map refOf, nat j "body"⟩)
+
+def vinterfOf (tp st : List Json) (objs : List Desired) : VInterf :=
+  { get := actsAt tp "vget", dry := actsAt tp "vdry", stale := staleOf st objs }
+
+def rinterfOf (tp : List Json) : RInterf :=
+  { get := actsAt tp "rget", upd := actsAt tp "rupd" }
 
 /-- mirror of `uniqueResourceIdentifier` (GVK string + "/" + name) used by the
 reconciler to sort references, descending -/
@@ -131,18 +156,24 @@ def runStep (a : Acc) (st : Json) : Acc :=
   let ranL := (arr st "ran").map fun j => j.getBool?.toOption.getD false
   let ran : Nat → Bool := fun i => ranL.getD i false
   let refsBefore := a.sys.refs p.uid
-  let tp := interfOf (arr st "tp")
+  let tpj := arr st "tp"
+  let tp := interfOf tpj
+  let vi := vinterfOf tpj (arr st "stale") objs
+  let ri := rinterfOf tpj
+  let staleRefs : Option (List Ref) :=
+    if has st "staleRefs" then some ((arr (obj st "staleRefs") "refs").map refOfX) else none
+  let listed := staleRefs.getD refsBefore
   let (sys1, result, refs) : Sys × String × List Json :=
     if op == "release" then
       let refs := (arr st "refs").map refOfX
-      let (s1, r) := release rejects fault p ran s0 refs (List.range refs.length)
+      let (s1, r) := releaseV rejects fault ri p ran s0 refs (List.range refs.length)
       (⟨s1, a.sys.refs⟩, resStr r, [])
     else if op == "reconcile" then
-      let env : Env := ⟨rejects, fault, nats st "vorder", nats st "eorder", List.range refsBefore.length, ran, sortRefsDesc⟩
-      let (sys1, r) := reconcileRevI ⟨s0, a.sys.refs⟩ ⟨p, control, objs⟩ env tp
+      let env : Env := ⟨rejects, fault, nats st "vorder", nats st "eorder", List.range listed.length, ran, sortRefsDesc⟩
+      let (sys1, r) := reconcileRevV ⟨s0, a.sys.refs⟩ ⟨p, control, objs⟩ env ⟨vi, tp, ri, staleRefs⟩
       (sys1, resStr r, (sys1.refs p.uid).map refObsJson)
     else
-      let (s1, r) := establishI rejects fault tp p control s0 objs (nats st "vorder") (nats st "eorder")
+      let (s1, r) := establishV rejects fault vi tp p control s0 objs (nats st "vorder") (nats st "eorder")
       match r with
       | .ok ks => (⟨s1, a.sys.refs⟩, "ok", (ks.mergeSort (fun x y => nameOfKey x.key < nameOfKey y.key ||
             (nameOfKey x.key == nameOfKey y.key && (!x.kinded || y.kinded)))).map refObsJson)
@@ -159,8 +190,10 @@ def runStep (a : Acc) (st : Json) : Acc :=
     ("store", Json.arr (store.map objJson).toArray),
     ("log", Json.arr (log.map logJson).toArray)]
   -- model-side monitor: all-or-nothing evaluated on the model's own run
-  let establishing := op == "establish" || (op == "reconcile" && (control || refsBefore.isEmpty))
-  let blocked := establishing && objs.any fun d =>
+  let establishing := op == "establish" || (op == "reconcile" && staleRefs.isNone && (control || listed.isEmpty))
+  -- (decided from the pre-state: only meaningful when the validate phase sees that state)
+  let vquiet := (arr st "stale").isEmpty && tpj.all fun j => atOf j == ""
+  let blocked := establishing && vquiet && objs.any fun d =>
       (control && d.needsCA && p.tls != .present) ||
       match s0.get d.key with
       | some cur =>
